@@ -848,11 +848,17 @@ package server
 //@   requires s != nil && msg != nil
 //@   modifies steps, perCall
 //@   ensures [json-reply] result1 == nil && msg.OutputType == JSON ==> jsonDoc(result0)
+//@   ensures [read-only] *s.cols == old(*s.cols) && colsUntouched()
+//@   ensures [ttl.missing] result1 == nil && msg.OutputType == RESP && len(msg.Args) == 3 && ((*s.cols)[msg.Args[1]] == nil || (*s.cols)[msg.Args[1]].objs[msg.Args[2]] == nil) ==> result0 == respInt(-2)
+//@   ensures [ttl.no-deadline] result1 == nil && msg.OutputType == RESP && len(msg.Args) == 3 && (*s.cols)[msg.Args[1]] != nil && (*s.cols)[msg.Args[1]].objs[msg.Args[2]] != nil && objExpires((*s.cols)[msg.Args[1]].objs[msg.Args[2]]) == 0 ==> result0 == respInt(-1)
 //@ func Server.cmdEXISTS
 //@   frame-by-effects
 //@   requires s != nil && msg != nil
 //@   modifies steps, perCall
 //@   ensures [json-reply] result1 == nil && msg.OutputType == JSON ==> jsonDoc(result0)
+//@   ensures [read-only] *s.cols == old(*s.cols) && colsUntouched()
+//@   ensures [exists.model] result1 == nil && msg.OutputType == RESP ==> (*s.cols)[msg.Args[1]] != nil && result0 == respBool((*s.cols)[msg.Args[1]].objs[msg.Args[2]] != nil)
+//@   ensures [exists.no-such-key] len(msg.Args) == 3 && (*s.cols)[msg.Args[1]] == nil ==> result1 != nil
 //@ func Server.cmdFEXISTS
 //@   frame-by-effects
 //@   requires s != nil && msg != nil
@@ -986,9 +992,6 @@ package server
 //@ func Server.cmdDelHook
 //@   frame-by-effects
 //@   entry-assume s != nil && msg != nil && len(msg.Args) > 0 && s.config != nil
-//@ func Server.cmdEXPIRE
-//@   frame-by-effects
-//@   entry-assume s != nil && msg != nil && len(msg.Args) > 0 && s.config != nil
 //@ func Server.cmdFGET
 //@   frame-by-effects
 //@   entry-assume s != nil && msg != nil && len(msg.Args) > 0 && s.config != nil
@@ -1008,9 +1011,6 @@ package server
 //@   frame-by-effects
 //@   entry-assume s != nil && msg != nil && len(msg.Args) > 0 && s.config != nil
 //@ func Server.cmdPDelHook
-//@   frame-by-effects
-//@   entry-assume s != nil && msg != nil && len(msg.Args) > 0 && s.config != nil
-//@ func Server.cmdPERSIST
 //@   frame-by-effects
 //@   entry-assume s != nil && msg != nil && len(msg.Args) > 0 && s.config != nil
 //@ func Server.cmdPublish
@@ -1061,3 +1061,34 @@ package server
 //@ func Server.cmdScriptFlush
 //@   frame-by-effects
 //@   entry-assume s != nil && msg != nil && len(msg.Args) > 0 && s.config != nil
+
+// ---- EXPIRE, PERSIST, TTL, EXISTS against the map model (C01; deadlines also C14) ----------------------
+// kcol = the collection stored under the key when the command starts; kobj = the object stored under the id then.
+//@ ghost macro kcol(s, msg) = old(*s.cols)[msg.Args[1]]
+//@ func Server.cmdEXPIRE
+//@   frame-by-effects
+//@   entry-assume registriesNonNil(s) && allstr(k, (*s.cols)[k] != nil ==> colInv((*s.cols)[k])) && allint(c, allstr(k, allocated(astype(c, "collection.Collection").objs[k])))
+//@   requires s != nil && msg != nil
+//@   modifies steps, perCall
+//@   set-at-call Collection.Get#1 objs0 = col.objs
+//@   ensures [error-changes-nothing] result2 != nil ==> *s.cols == old(*s.cols) && colsUntouched()
+//@   ensures [keyspace-untouched] *s.cols == old(*s.cols)
+//@   at-return [expire.no-such-key] result2 == nil && kcol(s, msg) == nil ==> colsUntouched() && !result1.updated
+//@   at-return [expire.no-such-id] result2 == nil && kcol(s, msg) != nil && objs0[msg.Args[2]] == nil ==> colsUntouched() && !result1.updated
+//@   at-return [expire.model] result2 == nil && kcol(s, msg) != nil && objs0[msg.Args[2]] != nil ==> result1.updated && kcol(s, msg).objs == store(objs0, msg.Args[2], result1.obj) && objID(result1.obj) == msg.Args[2] && objGeo(result1.obj) == objGeo(objs0[msg.Args[2]]) && objFields(result1.obj) == objFields(objs0[msg.Args[2]])
+//@   at-return [expire.others] result2 == nil ==> allint(c, c != kcol(s, msg) ==> astype(c, "collection.Collection").objs == old(astype(c, "collection.Collection").objs))
+//@   ensures [reply] result2 == nil && msg.OutputType == RESP ==> result0 == respInt(ite(result1.updated, 1, 0))
+//@   ensures [json-reply] result2 == nil && msg.OutputType == JSON ==> jsonDoc(result0)
+//@ func Server.cmdPERSIST
+//@   frame-by-effects
+//@   entry-assume registriesNonNil(s) && allstr(k, (*s.cols)[k] != nil ==> colInv((*s.cols)[k])) && allint(c, allstr(k, allocated(astype(c, "collection.Collection").objs[k])))
+//@   requires s != nil && msg != nil
+//@   modifies steps, perCall
+//@   set-at-call Collection.Get#1 objs0 = col.objs
+//@   ensures [error-changes-nothing] result2 != nil ==> *s.cols == old(*s.cols) && colsUntouched()
+//@   ensures [keyspace-untouched] *s.cols == old(*s.cols)
+//@   at-return [persist.absent] result2 == nil && (kcol(s, msg) == nil || objs0[msg.Args[2]] == nil) ==> colsUntouched() && !result1.updated
+//@   at-return [persist.no-deadline] result2 == nil && kcol(s, msg) != nil && objs0[msg.Args[2]] != nil && objExpires(objs0[msg.Args[2]]) == 0 ==> colsUntouched() && !result1.updated
+//@   at-return [persist.model] result2 == nil && kcol(s, msg) != nil && objs0[msg.Args[2]] != nil && objExpires(objs0[msg.Args[2]]) != 0 ==> result1.updated && kcol(s, msg).objs == store(objs0, msg.Args[2], result1.obj) && objExpires(result1.obj) == 0 && objID(result1.obj) == msg.Args[2] && objGeo(result1.obj) == objGeo(objs0[msg.Args[2]]) && objFields(result1.obj) == objFields(objs0[msg.Args[2]])
+//@   at-return [persist.others] result2 == nil ==> allint(c, c != kcol(s, msg) ==> astype(c, "collection.Collection").objs == old(astype(c, "collection.Collection").objs))
+//@   ensures [reply] result2 == nil && msg.OutputType == RESP ==> result0 == respInt(ite(result1.updated, 1, 0))
